@@ -1985,6 +1985,7 @@ DEVIATIONS = [
     ("MC_Lifecycle", "MC_Lifecycle_q1", {"UnmapOnDrop": "FALSE"}, ("NoLeak",)),
     ("MC_Lifecycle", "MC_Lifecycle_rg", {"SavedFrom": '"first"'}, ("OnlyNamed", "Restored")),
     ("MC_Lifecycle", "MC_Lifecycle_fr", {"AllocAt": '"fixed"'}, ("ForeignIntact",)),
+    ("MC_Lifecycle", "MC_Steps_q", {"VerifierStep": '"last"'}, ("ResetBeforeLive",)),
     ("MC_Lifecycle", "MC_Lifecycle_rf", {"LockByHand": "TRUE"}, ("IdleClean", "HolderIsLock", "Mutex")),
     ("MC_Lock", "MC_Lock_q", {"UnlockFirst": "TRUE"}, ("Mutex", "FreeMeansOrig", "PrevSeesOrig", "HolderIsLock")),
     ("MC_Lock", "MC_Lock_q", {"SwallowPoison": "FALSE"}, ("Reusable", "HandOver", "NoStuck", "temporal")),
